@@ -1516,9 +1516,17 @@ func (fr *oFrame) call(call *ast.CallExpr) []oval {
 						return one(oTop{"closure arity"})
 					}
 					for i, pv := range ps {
-						v := fr.eval(call.Args[i])
+						v := fr.rvalue(fr.eval(call.Args[i]))
 						if pv != nil {
-							sub.env.define(pv, fr.rvalue(v))
+							// an argument handed to an interface-typed parameter is boxed
+							if _, isIface := pv.Type().Underlying().(*types.Interface); isIface {
+								v = fr.toIface(v)
+								if iv, ok := v.(oIface); ok && iv.styp == nil {
+									iv.styp = fr.info.TypeOf(call.Args[i])
+									v = iv
+								}
+							}
+							sub.env.define(pv, v)
 						}
 					}
 					sub.resVars = resultVars(finfo, fn.lit.Type)
@@ -1634,8 +1642,20 @@ func (fr *oFrame) call(call *ast.CallExpr) []oval {
 		}
 		if fl, ok := fv.(oFunc); ok {
 			var args []oval
-			for _, a := range call.Args {
-				args = append(args, fr.rvalue(fr.eval(a)))
+			dsig, _ := fr.info.TypeOf(call.Fun).Underlying().(*types.Signature)
+			for i, a := range call.Args {
+				v := fr.rvalue(fr.eval(a))
+				// an argument handed to an interface-typed parameter is boxed, as in a static call
+				if dsig != nil && i < dsig.Params().Len() && !(dsig.Variadic() && i >= dsig.Params().Len()-1) {
+					if _, isIface := dsig.Params().At(i).Type().Underlying().(*types.Interface); isIface {
+						v = fr.toIface(v)
+						if iv, ok := v.(oIface); ok && iv.styp == nil {
+							iv.styp = fr.info.TypeOf(a)
+							v = iv
+						}
+					}
+				}
+				args = append(args, v)
 			}
 			res, why := fr.it.CallFunc(fl, args)
 			if why != "" {
